@@ -328,8 +328,30 @@ class Exec:
                     rot = rotate_deferred(fi.node)
                     if rot is not None:
                         body = rot
+                    else:
+                        from .fuse import inline_visitors
+
+                        def resolve_new(nm, _m=fi.module):
+                            sym_ = _m.symbols.get(nm)
+                            f_ = sym_[1] if sym_ is not None and sym_[0] == "func" else None
+                            return f_.node if isinstance(f_, FuncInfo) and f_.cls is None and _is_new_function(f_) else None
+
+                        inl = inline_visitors(fi.node, resolve_new)
+                        if inl is not None:
+                            body = inl
             cache[key] = (fi.node, body)
         return cache[key][1]
+
+    def _phi_value(self, c: Term, a: Term, b: Term) -> Term:
+        """the value `a if c else b`; two records of the same named-tuple fields merge field by field (the record of the conditional fields)"""
+        if a.op == "tuple" and b.op == "tuple" and len(a.args[0]) == len(b.args[0]) and a.uid in self.nt_fields and self.nt_fields.get(a.uid) == self.nt_fields.get(b.uid) and len(self.nt_fields[a.uid]) == 1:
+            t = mk("tuple", tuple(x if x is y else mk("phi", c, x, y) for x, y in zip(a.args[0], b.args[0])))
+            self.nt_fields.setdefault(t.uid, set()).update(self.nt_fields[a.uid])
+            ncl = self.__dict__.get("nt_class", {})
+            if ncl.get(a.uid) and ncl.get(a.uid) == ncl.get(b.uid):
+                ncl.setdefault(t.uid, set()).update(ncl[a.uid])
+            return t
+        return mk("phi", c, a, b)
 
     def _merge_returns(self, finals):
         # two return paths whose facts are a common prefix followed by (c, True) / (c, False) were separated by the test c: their values merge under c
@@ -346,9 +368,23 @@ class Exec:
                     a, b = ((v1, s1), (v2, s2)) if f1[-1][1] else ((v2, s2), (v1, s1))
                     m = self.merge(c, a[1], b[1])
                     m.facts = tuple(f1[:-1])
-                    finals[i:i + 2] = [(a[0] if a[0] is b[0] else mk("phi", c, a[0], b[0]), m)]
+                    finals[i:i + 2] = [(a[0] if a[0] is b[0] else self._phi_value(c, a[0], b[0]), m)]
                     progress = True
                     break
+        if len(finals) == 2:
+            # the two remaining return paths part at a test c (one went on under c, the other under not c; what was tested after that on either side -- and
+            # ended in a raise on its other branch -- does not matter for WHICH of the two values is returned)
+            (v1, s1), (v2, s2) = finals
+            f1, f2 = s1.facts, s2.facts
+            k = 0
+            while k < min(len(f1), len(f2)) and f1[k] == f2[k]:
+                k += 1
+            if k < min(len(f1), len(f2)) and f1[k][0] is f2[k][0] and bool(f1[k][1]) != bool(f2[k][1]):
+                c = f1[k][0]
+                a, b = ((v1, s1), (v2, s2)) if f1[k][1] else ((v2, s2), (v1, s1))
+                m = self.merge(c, a[1], b[1])
+                m.facts = tuple(f1[:k])
+                return (a[0] if a[0] is b[0] else self._phi_value(c, a[0], b[0])), m
         val, s = finals[0]
         for v2, s2 in finals[1:]:
             sel = sym("path")
